@@ -152,13 +152,17 @@ impl Records {
                     if typ=="rec" {
                         let mut records: HashMap<usize,String> = HashMap::new();
                         let map_obj = &parsed["records"];
-                        if map_obj.entries().len()==0 {
-                            log::error!("no object entries in json records");
+                        if !map_obj.is_object() {
+                            log::error!("no records object in json records");
                             return Err(Box::new(Error::FileImageFormat));
                         }
                         for (key,lines) in map_obj.entries() {
                             if let Ok(num) = usize::from_str(key) {
                                 let mut fields = String::new();
+                                if !lines.is_array() {
+                                    log::error!("record is not a list of strings");
+                                    return Err(Box::new(Error::FileImageFormat));
+                                }
                                 for maybe_field in lines.members() {
                                     if let Some(line) = maybe_field.as_str() {
                                         fields = fields + line + "\n";
